@@ -1094,6 +1094,41 @@ func scanOutLevel(c *core.Ctx) []ob {
 						okBase = true
 					}
 				}
+				// `op.ct.Resize(…)` with op the value variable of a loop over a literal table whose rows name the elements
+				if !okBase {
+					if bs, ok := unparen(base).(*ast.SelectorExpr); ok {
+						if rv, ok := unparen(bs.X).(*ast.Ident); ok {
+							ast.Inspect(fd.Body, func(y ast.Node) bool {
+								rs, ok := y.(*ast.RangeStmt)
+								if !ok || okBase {
+									return !okBase
+								}
+								vid, ok := rs.Value.(*ast.Ident)
+								if !ok || info.Defs[vid] != info.Uses[rv] {
+									return true
+								}
+								cl, ok := unparen(rs.X).(*ast.CompositeLit)
+								if !ok {
+									return true
+								}
+								for _, row := range cl.Elts {
+									rcl, ok := unparen(row).(*ast.CompositeLit)
+									if !ok {
+										continue
+									}
+									for _, el := range rcl.Elts {
+										if kv, ok := el.(*ast.KeyValueExpr); ok {
+											if k, ok := kv.Key.(*ast.Ident); ok && k.Name == bs.Sel.Name && d.elems[exprString(unparen(kv.Value))] {
+												okBase = true
+											}
+										}
+									}
+								}
+								return true
+							})
+						}
+					}
+				}
 				if !okBase {
 					return true
 				}
